@@ -41,13 +41,15 @@ func verifC20World() *verifC20 {
 	verifAnomalyBudget = verifnd.Param("anomalies", 2)
 	ha := []string{"h1", "h2", "h3"}
 	casc := map[string]string{}
-	switch verifnd.Choose("cascade", verifnd.Param("cascade_kinds", 4)) {
+	switch verifnd.Choose("cascade", verifnd.Param("cascade_kinds", 5)) {
 	case 1:
 		casc["c1"] = "h2"
 	case 2:
 		casc["c1"] = "ghost" // configured source is not a registered host
 	case 3:
 		casc["c1"] = ""
+	case 4:
+		casc["c1"] = "c1" // configured to stream from itself
 	}
 	cfg := verifConfig("h2")
 	cfg.ResetupCrashedHosts = true
